@@ -166,24 +166,53 @@ type Fact struct {
 	If   *ssa.If
 }
 
+// noReturnBlock: the block contains a call that never returns (os.Exit, log.Fatal*),
+// so its outgoing edges are dead although go/ssa keeps them.
+func noReturnBlock(b *ssa.BasicBlock) bool {
+	for _, in := range b.Instrs {
+		if c, ok := in.(*ssa.Call); ok {
+			k := calleeKey(&c.Call)
+			if k == "os.Exit" || strings.HasPrefix(k, "log.Fatal") || k == "runtime.Goexit" {
+				return true
+			}
+		}
+	}
+	return false
+}
+
+func effectivePreds(b *ssa.BasicBlock) []*ssa.BasicBlock {
+	var out []*ssa.BasicBlock
+	for _, p := range b.Preds {
+		if !noReturnBlock(p) {
+			out = append(out, p)
+		}
+	}
+	return out
+}
+
 // factsAt returns the conditions established by dominating single-predecessor branch
-// edges. It is an under-approximation of what holds at b (sound for acceptance).
+// edges (predecessors that end in os.Exit are dead and ignored). It is an
+// under-approximation of what holds at b (sound for acceptance).
 func factsAt(b *ssa.BasicBlock) []Fact {
 	var out []Fact
-	for cur := b; cur != nil && cur.Idom() != nil; cur = cur.Idom() {
-		d := cur.Idom()
-		if len(cur.Preds) != 1 || cur.Preds[0] != d {
+	seen := map[*ssa.BasicBlock]bool{}
+	cur := b
+	for cur != nil && !seen[cur] {
+		seen[cur] = true
+		eps := effectivePreds(cur)
+		if len(eps) == 1 {
+			d := eps[0]
+			if ifi, ok := d.Instrs[len(d.Instrs)-1].(*ssa.If); ok && d.Succs[0] != d.Succs[1] {
+				if d.Succs[0] == cur {
+					out = append(out, Fact{ifi.Cond, true, ifi})
+				} else if d.Succs[1] == cur {
+					out = append(out, Fact{ifi.Cond, false, ifi})
+				}
+			}
+			cur = d
 			continue
 		}
-		ifi, ok := d.Instrs[len(d.Instrs)-1].(*ssa.If)
-		if !ok || d.Succs[0] == d.Succs[1] {
-			continue
-		}
-		if d.Succs[0] == cur {
-			out = append(out, Fact{ifi.Cond, true, ifi})
-		} else if d.Succs[1] == cur {
-			out = append(out, Fact{ifi.Cond, false, ifi})
-		}
+		cur = cur.Idom()
 	}
 	return out
 }
@@ -638,4 +667,36 @@ func resolveLocal(v ssa.Value) ssa.Value {
 		v = last
 	}
 	return v
+}
+
+// freshSlice recognises make([]T, n): either a MakeSlice, or (constant n) a slice of a
+// fresh array alloc. Returns the length value/constant.
+func freshSlice(v ssa.Value) (constLen int64, lenVal ssa.Value, ok bool) {
+	switch x := v.(type) {
+	case *ssa.MakeSlice:
+		if n, isC := constInt(x.Len); isC {
+			return n, x.Len, true
+		}
+		return -1, x.Len, true
+	case *ssa.Slice:
+		al, isAl := x.X.(*ssa.Alloc)
+		if !isAl || x.Low != nil {
+			return 0, nil, false
+		}
+		pt, _ := al.Type().Underlying().(*types.Pointer)
+		if pt == nil {
+			return 0, nil, false
+		}
+		arr, isArr := pt.Elem().Underlying().(*types.Array)
+		if !isArr {
+			return 0, nil, false
+		}
+		if x.High == nil {
+			return arr.Len(), nil, true
+		}
+		if n, isC := constInt(x.High); isC {
+			return n, x.High, true
+		}
+	}
+	return 0, nil, false
 }
